@@ -23,11 +23,11 @@ func TestC06Progress(t *testing.T) {
 	ts := newTraceSet(dir, "c06")
 	thorough := os.Getenv("VERIF_TIER") == "thorough"
 	type scen struct {
-		desc    map[string]any
-		cfg     gbnrun.Config
-		until   time.Duration
-		base    time.Duration // base resend timeout once the link is reliable
-		ka      bool
+		desc  map[string]any
+		cfg   gbnrun.Config
+		until time.Duration
+		base  time.Duration // base resend timeout once the link is reliable
+		ka    bool
 	}
 	var scens []scen
 	r := rng(606)
@@ -87,9 +87,9 @@ func TestC06Progress(t *testing.T) {
 					return vnet.Fate{Copies: 1}
 				}
 				cfg := gbnrun.Config{N: 20, Static: static, Latency: lat, Decide: dec,
-					Msgs: [2]int{burst, 0},
-					Ping: [2]time.Duration{7 * time.Second, 5 * time.Second},
-					Pong: [2]time.Duration{3 * time.Second, 3 * time.Second},
+					Msgs:  [2]int{burst, 0},
+					Ping:  [2]time.Duration{7 * time.Second, 5 * time.Second},
+					Pong:  [2]time.Duration{3 * time.Second, 3 * time.Second},
 					Extra: []gbn.TimeoutOptions{gbn.WithHandshakeTimeout(4*lat + 2*time.Second)}}
 				base := static
 				if base == 0 {
